@@ -228,4 +228,22 @@ def generateOutcome (npeers n t : Nat) (walletDistributed accountExists permitte
     | .badCommitReply => (false, true)                                  -- detected only after the commits happened
     | .heldElsewhere => (false, true)                                   -- the other participants had already committed
 
+/-! ## The peer table (services/peers/static `New`)
+
+An entry is `name:port`; the table is refused when an entry is malformed (not exactly one colon, port not a number in
+1 … 2^32−1) or when two ids carry the same NAME — the name is all that links an authenticated caller to a participant id
+(`senderID`), so a name under two ids would make one caller two participants. -/
+
+def peerNameOf (ep : String) : Option String :=
+  match ep.splitOn ":" with
+  | [n, p] => if p.all Char.isDigit && !p.isEmpty then
+                (match p.toNat? with
+                 | some k => if 0 < k && k < 4294967296 then some n else none
+                 | none => none)
+              else none
+  | _ => none
+
+def peersAccepted (eps : List String) : Bool :=
+  eps.all (fun e => (peerNameOf e).isSome) && decide ((eps.filterMap peerNameOf).Nodup)
+
 end Dirk.Dkg
